@@ -56,7 +56,23 @@ func main() {
 	tier := flag.String("tier", "quick", "quick | thorough")
 	only := flag.String("rule", "", "run only this rule (replay)")
 	dump := flag.Bool("dump", false, "dump function keys")
+	list := flag.Bool("list", false, "list properties and their rules")
 	flag.Parse()
+	if *list {
+		var ids []string
+		for k := range registry {
+			ids = append(ids, k)
+		}
+		sort.Strings(ids)
+		for _, id := range ids {
+			var ns []string
+			for _, rd := range registry[id].Rules {
+				ns = append(ns, rd.Name)
+			}
+			fmt.Printf("%s: %s\n", id, strings.Join(ns, ", "))
+		}
+		return
+	}
 	if *dump {
 		p, err := Load(*repo, quickConfigs[0], true)
 		if err != nil {
